@@ -129,6 +129,15 @@ func ZZ_C15_EndToEnd() {
 		return
 	}
 	zzAssert(len(closeChan) == 0 && cl.err == nil, "C15.e2e.connection-declared-failed-although-the-replica-answered")
+	// each request kind reaches exactly its own operation of the replica's data processor
+	calls := []int{data.writes, data.reads, data.syncs, data.unmaps, data.pings}
+	for k, cnt := range calls {
+		want := 0
+		if k == op {
+			want = 1
+		}
+		zzAssert(cnt == want, "C15.e2e.request-delivered-to-another-operation-or-not-once")
+	}
 	switch op {
 	case 0:
 		if data.lastWrite != nil {
